@@ -251,7 +251,7 @@ def main_check(check_id: str, tier: str, replay: str | None = None) -> int:
         evaluations += int(res.get("evaluations", 0))
         distinct.update(res.get("distinct", []))
         for k, v in res.get("counters", {}).items():
-            counters[k] = counters.get(k, 0) + v
+            counters[k] = max(counters.get(k, 0), v) if k.startswith("max_") else counters.get(k, 0) + v
         pi = per_interp.setdefault(interp, {"shards": 0, "evaluations": 0})
         pi["shards"] += 1
         pi["evaluations"] += int(res.get("evaluations", 0))
